@@ -23,7 +23,7 @@ CFG = {
 }
 
 META = {
-    "text": "Lock-step dense reference model over ~5k (quick) / ~130k (thorough) random histories on sparse vectors and matrices of all nine element types, "
+    "text": "Lock-step dense reference model over ~115k (quick) / ~3.6M (thorough) random histories on sparse vectors and matrices of all nine element types, "
             "judged after every step by complete read-back, fresh iteration and live-iterator checks. Held on the histories executed (operation and "
             "argument-class counts in the evidence); longer histories, larger dimensions and other interleavings are not covered.",
     "design_ref": "DESIGN.md section 3, C11",
